@@ -162,10 +162,12 @@ def is_facet_inwards(face, faces):
     v1 = face[0] - face[1]
     v2 = face[1] - face[2]
     orient = np.cross(v1, v2)
-    orient /= np.linalg.norm(orient)  # for single facet numpy is fine
+    norm = np.linalg.norm(orient)
+    orient /= norm  # for single facet numpy is fine
 
     # create a check point by displacing the facet center in facet orientation direction
-    eps = 1e-5  # unfortunately this must be quite a 'large' number :(
+    # by a small fraction of the facet size, so that the result does not depend on the length unit
+    eps = 1e-5 * np.sqrt(norm)  # unfortunately this must be quite a 'large' number :(
     check_point = face.mean(axis=0) + orient * eps
 
     # find out if first point is inwards
